@@ -258,8 +258,8 @@ func runCase(t *testing.T, c *Case, sch scheduler, maxMoves int, drain bool, emi
 				if done {
 					break
 				}
-				if len(ins) == 0 && round >= 6 && !st.cancelled {
-					// generators never end by themselves
+				if (c.Stage.Kind == "unfold" || c.Stage.Kind == "emit") && round >= 6 && !st.cancelled {
+					// generators never end by themselves (Seq and a Join of nothing do)
 					do(intent{kind: "cancel"})
 					continue
 				}
